@@ -21,6 +21,7 @@ hash_of = z3.Function("hash_of", Val, I)
 COUNT_FAILED = z3.Function("count_failed", SeqE, I)   # number of events whose c field is True (offers that raised)
 PROJ_B = z3.Function("proj_b", SeqE, SeqV)             # the `b` fields of the events, in order
 PROJ_A = z3.Function("proj_a", SeqE, SeqV)             # the `a` fields of the events, in order
+PARAMS_OF = z3.Function("params_of", Val, SetV)          # parameter names of a callable (inspect.signature / getcallargs)
 ALL_A = z3.Function("all_a", SeqE, Val, B)             # every event's `a` field is the given value
 ALL_B = z3.Function("all_b", SeqE, Val, B)             # every event's `b` field is the given value
 ALL_TAG = z3.Function("all_tag", SeqE, S, B)           # every event has the given tag
@@ -33,7 +34,7 @@ class ModelMixin:
                      "ite", "unit", "is_none", "is_str", "is_int", "is_ref", "last", "ref", "allocated",
                      "held", "is_list_of_pos_int", "cls_id", "is_float", "sval", "ival", "dget", "singleton", "str", "is_bool", "is_dict", "is_list",
                      "setof", "contains", "prefix_of", "is_bytes", "is_cls", "map_int2str", "joinstr", "split", "lookup_global",
-                     "funcval", "seqmap", "extends", "only_changed", "UNSET", "unchanged", "unchanged_old", "cls_module_name", "all_reports", "empty_log", "count_failed", "suffix_of", "proj_a", "all_b", "all_tag", "card", "outside", "mro", "none_in", "is_concat", "none_missing", "is_subset", "union", "is_prefix", "proj_b", "all_b_not", "all_a", "all_nat", "levelstr", "ascii_ok", "bytes_of", "str_contains", "codec_facts", "is_tuple"}
+                     "funcval", "seqmap", "extends", "only_changed", "UNSET", "unchanged", "unchanged_old", "cls_module_name", "all_reports", "empty_log", "count_failed", "suffix_of", "proj_a", "all_b", "all_tag", "card", "outside", "mro", "none_in", "is_concat", "none_missing", "is_subset", "union", "params_of", "truthy", "is_prefix", "proj_b", "all_b_not", "all_a", "all_nat", "levelstr", "ascii_ok", "bytes_of", "str_contains", "codec_facts", "is_tuple"}
 
     # ------------------------------------------------------------------ spec-mode calls
     def spec_call(self, e, st):
@@ -411,6 +412,10 @@ class ModelMixin:
         if name == "card":
             d1, m1 = self.as_sdict(st, self.spec_builtin(st, "dict_of", [a[0]], e))
             return SV("int", self.set_card(d1))
+        if name == "params_of":
+            return SV("sset", PARAMS_OF(box(a[0])))
+        if name == "truthy":
+            return SV("bool", self.truth(st, a[0]))
         if name == "is_prefix":
             return SV("bool", z3.PrefixOf(a[0].t, a[1].t))
         if name == "all_b_not":
